@@ -12,6 +12,8 @@ the model runner prints `<compared>` only):
      at X-Tinode-Auth/Authorization/query/form/cookie) sq= sf= (sid) tq= tf= (topic) mh= (media
      handler) lim= body= fault= kind= fid=      upload request  -> UP <status|CRASH> <effect>
   SV m=.. kh= kq= kc= cx= ca= cq= cc= sq= mh= url=<template>  download -> SV <status> none|served:<k>
+  INFLIGHT <fid> <kind> <n>     the fs handler's Upload (os.Create + StartUpload + copy) WITHOUT FinishUpload:
+                                an upload that is running / was abandoned          -> INFLIGHT ok
   USER/TOPIC/PUB/TAV/UAV/DELMSG/DELTOPIC/DELUSER/GC/DUMP      history of the link / GC part
 
 Laws evaluated on the IMPLEMENTATION's answers: see LAWS below."""
@@ -33,8 +35,8 @@ LAWS = {
     "size-limit": "a body above the configured size is refused and nothing is stored",
     "download-exact": "a download returns exactly the bytes and the content type of the upload its URL names",
     "active-attached": "HTML, XML, text and application types are sent with Content-Disposition: attachment",
-    "c16-download-incomplete-upload": "a download serves an upload record whose status is not 'completed'",
-    "c16-finish-failure-nil-deref": "largeFileReceive panics (request unanswered) when FinishUpload fails",
+    "download-completed-only": "a download serves only an upload record whose status is 'completed' (never a running, failed or abandoned upload)",
+    "upload-answered": "the upload handler answers every request it starts to work on (no panic / dropped connection), also when the store fails at FinishUpload",
     "gc-exact": "a GC run removes exactly the unlinked records older than the bound, with their bytes, and nothing else",
     "linked-while-referenced": "a file listed with an accepted publish / avatar update stays linked and stored while the message / topic / user exists",
     "c16-attachment-link-all-or-nothing": "a stored message is left without links to its existing attachments because another listed attachment does not exist",
@@ -212,6 +214,11 @@ class Gen:
         d = dict(m=m, kh=kh, kq=kq, kc=kc, cx=cx, ca=ca, cq=cq, cc=cc, sq=sq, mh=mh, asatt=asatt, acrm=acrm, url=url)
         self.add("SV " + " ".join("%s=%s" % kv for kv in d.items()))
 
+    def inflight(self, kind=None, n=None):
+        self.nfid += 1
+        self.add("INFLIGHT %d %s %d" % (self.nfid, kind or self.rng.choice(KINDS), n or self.rng.choice([700, 1500, 3000])))
+        return self.nfid
+
     def good_up(self, kind=None, **kw):
         r = self.rng
         a = {}
@@ -247,6 +254,8 @@ class Gen:
             return "h%s+f%d+h%s" % (s, k, hx(r.choice([".jpg", ".html", ".x.y", "%00"])))
         if shape == "q":
             return "F%d+h%s" % (k, hx("?x=1"))
+        if shape == "idq":
+            return "h%s+f%d+h%s" % (s, k, hx("?x=1"))
         raise ValueError(shape)
 
     def bad_tpl(self, absolute=False):
@@ -372,6 +381,15 @@ def gate_cases(g):
     # the records a failed FinishUpload left behind: can they be downloaded?
     for k in residues:
         g.sv("h%s+f%d" % (hx(SERVE), k), kh="valid", cx="good1", target=k)
+    # uploads that are running (between StartUpload and FinishUpload) or were abandoned there:
+    # record in status 'started' WITH bytes.  No URL shape, credential placement or method serves them.
+    for kind in rng.sample(KINDS, 4 if quick else len(KINDS)):
+        k = g.inflight(kind)
+        for shape in ("id", "dot", "dd", "slash", "ext", "idq"):
+            g.sv(g.tpl(k, shape), kh="valid", cx="good1", asatt=rng.choice(["-", "1"]), target=k)
+        g.sv(g.tpl(k, "id"), kq="valid", sq="live", target=k)
+        g.sv(g.tpl(k, "id"), kc="valid", cc="good2", target=k)
+        g.sv(g.tpl(k, "id"), m="HEAD", kh="valid", ca="good1", target=k)
     g.add("DUMP")
     g.add("GC past 0")
     g.add("DUMP")
@@ -397,7 +415,10 @@ def history_cases(g, count, length):
         for step in range(length):
             r = rng.random()
             if r < 0.22 or not files:
-                k = g.good_up(body="form:%d:1:1" % rng.choice([1300, 1800]))
+                if files and rng.random() < 0.15:
+                    k = g.inflight()          # never completed: linkable, never downloadable, collected when unlinked
+                else:
+                    k = g.good_up(body="form:%d:1:1" % rng.choice([1300, 1800]))
                 files.append(k)
             elif r < 0.30 and len(topics) < 3:
                 g.ntopic += 1
@@ -532,7 +553,7 @@ def monitors(lines, answers):
             if d["m"] not in impl_methods and not (status == "405" and not worked):
                 fails.append(("methods", i, "method %s answered %s %s" % (d["m"], status, effect)))
             if status == "CRASH" and d.get("mh") != "none":
-                fails.append(("c16-finish-failure-nil-deref", i, "handler panicked: " + unhx(side.get("panic", "-")).decode("latin1")))
+                fails.append(("upload-answered", i, "handler panicked, request unanswered, left %s: %s" % (effect, unhx(side.get("panic", "-")).decode("latin1"))))
             elif status == "500" and effect in ("residue", "residue-nobytes") and d.get("fault") in ("finish", "start", "create"):
                 pass        # a FAILED upload (store failure): the record stays for the GC, as the property says
             elif status != "200" and status != "CRASH" and worked:
@@ -550,7 +571,7 @@ def monitors(lines, answers):
                 if is_active(mime) and unhx(side.get("cd", "-")) != b"attachment":
                     fails.append(("active-attached", i, "type %r served inline" % mime))
                 if side.get("recstatus") != "1":
-                    fails.append(("c16-download-incomplete-upload", i, "served upload record with status " + str(side.get("recstatus"))))
+                    fails.append(("download-completed-only", i, "served the bytes of an upload record whose status is %s (0 = started, 1 = completed)" % side.get("recstatus")))
         elif w[0] == "PUB":
             if a[1] == "saved=1":
                 npub += 1
@@ -779,7 +800,7 @@ def run(ctx):
         c = a.split(" |")[0].split()
         o = k + ":" + (" ".join(c[1:3]) if k in ("UP", "SV") else ("0" if c[1:] in (["0"], ["-"]) else "x") if k in ("ID", "FA") else "")
         outs[o] = outs.get(o, 0) + 1
-        if (k == "ID" and c[1] != "0") or (k in ("UP", "SV") and c[2] != "none") or k in ("PUB", "TAV", "UAV", "GC", "DELMSG", "DELTOPIC", "DELUSER") \
+        if (k == "ID" and c[1] != "0") or (k in ("UP", "SV") and c[2] != "none") or k in ("PUB", "TAV", "UAV", "GC", "DELMSG", "DELTOPIC", "DELUSER", "INFLIGHT") \
                 or (k == "FA" and c[1] == "1") or (k == "CL" and c[1] != l.split()[1]):
             nontrivial.add(l)
     ctx.coverage.update({
@@ -787,7 +808,7 @@ def run(ctx):
         "rule": "path.Clean on every string over {/,.,a} up to length %d plus seeded structured and junk URLs; GetIdFromUrl on the same URLs for several serve prefixes; "
                 "the disposition rule on a list of real and mutated content types through the real handler; the upload and download handlers on method x API-key placement/kind x "
                 "credential placement/kind (sampled in quick, complete in thorough), pairs of placements, the newacc exception and its neighbours, body sizes around the limit for "
-                "four limits, non-form / no-file / empty-file bodies, four media-handler configurations, three injected faults, 15 content kinds, every URL shape per fixture; "
+                "four limits, non-form / no-file / empty-file bodies, four media-handler configurations, three injected faults (create / StartUpload / FinishUpload), uploads stopped between StartUpload and FinishUpload and downloads of them by every URL shape, 15 content kinds, every URL shape per fixture; "
                 "%d seeded histories of uploads, publishes with attachment lists, topic and account avatar updates, hard message deletion, topic and user deletion and GC runs "
                 "(DeleteUnused with future / past / zero bound and limits), each followed by a dump of memverif's file and link tables and the directory listing; "
                 "non-trivial = an id was extracted / a request had an effect / a history operation ran" % (7 if quick else 11, 12 if quick else 400),
